@@ -7,18 +7,21 @@ package types
 
 //verif:property C04
 //verif:bound varints: every value below 2^63 (and below 2^31 for the 31-bit form)
-//verif:bound transactions of 1 input (spend, issuance, veto, coinbase) x 1 output (original, vote): one field at a time ("focus", every field in turn) is wide -- an integer anywhere in 0..2^63-1, a byte string of 0..2 arbitrary bytes, a state-data / argument list of 0..2 items of 0..2 bytes -- while all other integers are arbitrary below 128 and all other byte strings / list items have the fixed length fill (0 = nil, or 1 arbitrary byte); hashes and asset ids arbitrary; this includes the three suffix fields of an input and the suffix of an output
-//verif:bound block headers with 0..2 sup links (signature slots: the focus slot 0..2 bytes, the others fill bytes), witness 0..2 bytes; blocks of 0..2 transactions (spend x original, narrow fields) in the three serialisation forms
-//verif:bound text form: MarshalText/UnmarshalText of a 1x1 transaction, a header with one sup link and a block with one transaction, fields narrow (fill = 1), hashes and asset ids fixed constants
+//verif:bound transactions of 1 input (spend, issuance, veto, coinbase) x 1 output (original, vote): one field at a time ("focus", every field in turn) is wide -- an integer anywhere in 0..2^63-1, a byte string of 0..2 arbitrary bytes, a state-data / argument list of 0..2 items of 0..2 bytes -- while all other integers are arbitrary below 128 and all other byte strings / list items have the fixed length fill (0 = nil, or 1 arbitrary byte; fill 0 for issuance and veto inputs only in the thorough tier); hashes and asset ids arbitrary; this includes the three suffix fields of an input and the suffix of an output
+//verif:bound block headers with 0..2 sup links (signature slots: the focus slot 0..2 bytes, the others fill bytes), witness 0..2 bytes; blocks of 0..1 transactions (thorough: 2) (spend x original, narrow fields) in the three serialisation forms
+//verif:bound text form: MarshalText/UnmarshalText of a 1x1 transaction, a header with one sup link and (thorough) a block with one transaction, fields narrow (fill = 1), hashes and asset ids fixed constants
 //verif:assume well-formed means: every integer field is below 2^63 (the writer rejects larger ones), asset version 1 and VM version 1 (the decoder rejects others), an issuance input carries the asset id computed from its own definition (as NewIssuanceInput does)
 //verif:assume SHA3-256 is an uninterpreted function without collisions (asset id of an issuance input, transaction ID)
 //verif:assume equality of values is modulo nil == empty for byte strings and lists (the decoders return nil for length 0)
 //verif:outside the JSON forms of the RPC layer (encoding/json reflection); wider shapes (more inputs/outputs, several wide fields at once)
 //verif:obligation fn=VerifC04Varint args=0 validate=20
-//verif:obligation fn=VerifC04Tx args=0,0,0;0,0,1;1,1,0;1,1,1;2,0,0;2,0,1;3,1,0;3,1,1 maps=lazy timeout=600000 secs=3600 validate=10
+//verif:obligation fn=VerifC04Tx args=0,0,0,0;0,0,0,1;0,0,1,0;0,0,1,1;1,1,1,0;1,1,1,1;2,0,1,0;2,0,1,1;3,1,0,0;3,1,0,1;3,1,1,0;3,1,1,1 maps=lazy timeout=600000 secs=3600 validate=10
+//verif:obligation fn=VerifC04Tx args=1,1,0,0;1,1,0,1;2,0,0,0;2,0,0,1 tier=thorough maps=lazy timeout=600000 secs=6000
 //verif:obligation fn=VerifC04Header args=0,0;1,0;1,1;2,1 timeout=600000 secs=3600 validate=10
-//verif:obligation fn=VerifC04Block args=0,1;1,1;1,2;1,3;2,3 maps=lazy timeout=600000 secs=3600 validate=10
-//verif:obligation fn=VerifC04Text args=0;1;2 maps=lazy idx=ite timeout=600000 secs=3600 validate=10
+//verif:obligation fn=VerifC04Block args=0,1;1,1;1,2;1,3 maps=lazy timeout=600000 secs=3600 validate=10
+//verif:obligation fn=VerifC04Block args=2,3 tier=thorough maps=lazy timeout=600000 secs=6000
+//verif:obligation fn=VerifC04Text args=0;1 maps=lazy idx=ite timeout=600000 secs=3600 validate=10
+//verif:obligation fn=VerifC04Text args=2 tier=thorough maps=lazy idx=ite timeout=600000 secs=6000
 
 import (
 	"bytes"
@@ -213,9 +216,10 @@ func verifC04CompareTx(a, b *TxData) {
 }
 
 // VerifC04Tx: binary round trip of a 1x1 transaction; every field in turn is the wide one
-func VerifC04Tx(inKind int, outKind int, fill int) {
+// (part 0: the wide field is one of the first 8 drawn, part 1: one of the rest)
+func VerifC04Tx(inKind int, outKind int, fill int, part int) {
 	slots := 16
-	g := &verifC04Gen{focus: verifChoice("focus", slots), fill: fill}
+	g := &verifC04Gen{focus: 8*part + verifChoice("focus", slots/2), fill: fill}
 	tx := TxData{Version: g.u63("version"), TimeRange: g.u63("timeRange")}
 	tx.Inputs = []*TxInput{verifC04Input(g, inKind)}
 	tx.Outputs = []*TxOutput{verifC04Output(g, outKind)}
